@@ -401,6 +401,42 @@ func ruleN8(c *Ctx) {
 	c.check(n >= 1, "N8", "instances", token.NoPos, fmt.Sprintf("%d start-value stores outside Reset/Init (frozen minimum 1)", n))
 }
 
+// N9: a parameter name is looked at as a whole. setFromParamVal recognises tag / expires / q / lr by comparing the
+// whole name case-insensitively (N3); no other test reads a byte of the name (an index built from pstart): a
+// first-character pre-check in front of the comparisons has to list both cases of every known name and silently
+// drops the ones it forgets (;Q=0.5).
+func ruleN9(c *Ctx) {
+	fn := c.SFuncs["setFromParamVal"]
+	bp := anyBufParam(fn)
+	if fn == nil || bp == nil {
+		c.fail("N9", "setFromParamVal", token.NoPos, "not found")
+		return
+	}
+	nIdx, bad := 0, 0
+	for _, b := range fn.Blocks {
+		for _, ins := range b.Instrs {
+			ia, ok := ins.(*ssa.IndexAddr)
+			if !ok || ia.X != ssa.Value(bp) {
+				continue
+			}
+			nIdx++
+			env := newLinEnv(linOpts{pathLoads: true})
+			l := env.norm(ia.Index)
+			fromName := false
+			for t := range l.T {
+				if strings.HasSuffix(t, ".pstart") || strings.HasSuffix(t, ".pend") {
+					fromName = true
+				}
+			}
+			if fromName {
+				bad++
+				c.fail("N9", fmt.Sprintf("setFromParamVal:name-byte#%d", bad), ia.Pos(), "a single byte of the parameter name is read (index "+env.pretty(l)+"): names are compared as a whole, case-insensitively")
+			}
+		}
+	}
+	c.check(nIdx >= 1, "N9", "reads", fn.Pos(), fmt.Sprintf("%d single-byte reads of the buffer in setFromParamVal, %d of them of the parameter name", nIdx, bad))
+}
+
 func init() {
 	register(&PropDef{
 		ID: "C09",
@@ -412,6 +448,7 @@ func init() {
 			{"N6", "Contact / P-Asserted-Identity headers always reach their typed parser and their header counter (shared with C01-R3b): the dispatch state is never left undispatched and the dispatcher reports a non-zero verdict only after storing a typed state", ruleN6},
 			{"N5", "the number helper behind expires / q rejects only non-numbers: every error return of pUInt64Val lies inside its digit loop or under the len(b) > K test, and its success return hands back the accumulator as the loop left it, so the empty string is 0 (q=1. has an empty fraction)", ruleN5},
 			{"N8", "the running minimum of the Contact expires starts once per message: outside Reset/Init the all-ones start value of MinExpires is stored only where the dominating branch facts entail N <= 0 for the counter of the same list, so the minimum and maximum summarise all values of all Contact headers", ruleN8},
+			{"N9", "a parameter name is looked at as a whole: setFromParamVal reads no single byte of the name (no buffer index built from the name start / end), so tag, expires, q and lr are recognised in any letter case by the whole-name comparisons of N3 alone", ruleN9},
 			{"N4", "list bookkeeping: N++, Min/MaxExpires, first-contact copy unconditional in the completion clause, HNo on first entry, header kind recorded on every completing exit", ruleN4},
 		},
 		Assumptions: []string{"skipLWS consumes only linear whitespace"},
